@@ -19,6 +19,8 @@ for d in sorted(glob.glob(os.path.join(root, "seeded", "C*"))):
         if broken:
             c += " (machinery failure: " + ", ".join(broken) + ")"
         suite = res["suite"].replace("repo tests: ", "")
+        if suite.startswith("(not re-run"):  # SKIP_SUITE=1: the intake run with the change is the suite verdict
+            suite = meta["verified_by_me"]["repository_suite_with_change"] + " (intake)"
     else:
         c, own, suite = "not evaluated", False, "?"
     rows.append(f"| `{sid}` | {meta['property']} | {txt} | {suite} | {c} | {'yes' if own else 'NO'} |")
